@@ -9,3 +9,7 @@ func (b *BoundedBacktracker) VerifSetMaxVisited(n int) {
 		b.maxVisitedSize = n
 	}
 }
+
+// VerifStatePool returns a pointer to the pool of states borrowed by the stateless
+// search methods (concrete pool type depends on the build).
+func (b *BoundedBacktracker) VerifStatePool() any { return &b.statePool }
